@@ -58,25 +58,28 @@ def check_mandatory(run, analyses, rule):
         if not mand:
             continue
         was = writer_for_struct(facts, analyses, m["struct"], m["enum"])
-        if len(was) != 1:
+        if len(was) < 1:
             run.ob(rule, "%s:writer" % mname, None, None, 0,
-                   "expected exactly one serialiser of %s keyed by %s, found %d" % (m["struct"], m["enum"], len(was)))
+                   "expected a serialiser of %s keyed by %s, found none" % (m["struct"], m["enum"]))
             continue
-        wa = was[0]
         en = facts.enum(m["enum"], rule=rule)
-        byval = {}
-        for r in wa.rows:
-            byval.setdefault(r["keyval"], []).append(r)
-        for rname, mem in mand.items():
-            n += 1
-            rows = byval.get(mem["key"], [])
-            ok = len(rows) == 1 and rows[0]["guard"] == ("T",) and wa.top_guard == ("T",)
-            run.ob(rule, "%s.%s" % (mname, rname), ok, wa.fn, rows[0]["line"] if rows else wa.fn["line"],
-                   "mandatory member emitted unconditionally" if ok else
-                   ("mandatory RFC 8618 member %s (key %d) is %s" % (
-                       rname, mem["key"],
-                       "not emitted" if not rows else "emitted only under %s" % show_f(
-                           ir.f_and(rows[0]["guard"], wa.top_guard)))))
+        # (a struct may have more than one serialiser - `write(enc)` and a variant taking a value from its caller: each of them
+        # has to emit every mandatory member)
+        for wi, wa in enumerate(sorted(was, key=lambda w: (w.fn.get("line", 0), w.fn["key"]))):
+            byval = {}
+            for r in wa.rows:
+                byval.setdefault(r["keyval"], []).append(r)
+            for rname, mem in mand.items():
+                n += 1
+                rows = byval.get(mem["key"], [])
+                ok = len(rows) == 1 and rows[0]["guard"] == ("T",) and wa.top_guard == ("T",)
+                run.ob(rule, "%s.%s%s" % (mname, rname, "" if wi == 0 else "@%s" % wa.fn["qn"].split("::")[-1]), ok, wa.fn,
+                       rows[0]["line"] if rows else wa.fn["line"],
+                       "mandatory member emitted unconditionally" if ok else
+                       ("mandatory RFC 8618 member %s (key %d) is %s" % (
+                           rname, mem["key"],
+                           "not emitted" if not rows else "emitted only under %s" % show_f(
+                               ir.f_and(rows[0]["guard"], wa.top_guard)))))
     run.floor(rule, 20, "mandatory RFC 8618 members")
 
 
